@@ -115,6 +115,11 @@ kf("KF-helper-order-hashseed", ["C18"],
    {"kind": ["output-differs"], "session": "s_divmod_helpers", "axis": "hashseed"},
    "session s_divmod_helpers: C text differs between PYTHONHASHSEED=0 and 1",
    status="fixed", commit="93dce874")
+kf("KF-add-loop-guard-forward-chain", ["C06"],
+   "the same defect seen along a chain: a cursor created before add_loop(guard=True) and forwarded through it and a later rewrite still denotes the new `if` instead of the statement",
+   "LoopIR_scheduling.DoAddLoop",
+   {"level": "chain", "via_add_loop_guard": True},
+   "seed dep/scalar_between: add_loop(`acc: f32`, 'r', 2, guard=True); simplify; forward(cursor of `acc: f32` in the seed)")
 kf("KF-join-loops-prefix", ["C01"],
    "join_loops accepted loops whose bodies are [s1,s2] and [s1] (zip-based comparison)",
    "LoopIR.LoopIR_Compare.match_stmts",
